@@ -80,14 +80,22 @@ class PrecModel(object):
         if actor == 'fp':
             return
         n = to_int(v)
-        self.m[actor] = (max(1, n), prec_to_dps(n))
+        try:
+            new = (max(1, n), prec_to_dps(n))
+        except OverflowError:       # a precision too large for the conversion formula: the assignment raises
+            raise Invalid
+        self.m[actor] = new
         self.last[actor] = ('prec', max(1, n))
 
     def set_dps(self, actor, v):
         if actor == 'fp':
             return
         n = to_int(v)
-        self.m[actor] = (dps_to_prec(n), max(1, n))
+        try:
+            new = (dps_to_prec(n), max(1, n))
+        except OverflowError:
+            raise Invalid
+        self.m[actor] = new
         self.last[actor] = ('dps', max(1, n))
 
     def default(self, actor):
